@@ -7,7 +7,9 @@
    Uses the binary64 sign lemmas of EpochTotalQuota.v (C02). *)
 From NeatModel Require Import Res F64 GoRand Genome Options Population QuotaReal QuotaSpec QuotaFloat.
 From NeatModel Require EpochTotalQuota FloatMono.
-From Coq Require Import Lia Floats.
+From Coq Require Import Lia Floats Reals.
+From Flocq Require Import Core.
+Open Scope Z_scope.
 
 Module Q := EpochTotalQuota.
 
@@ -58,24 +60,63 @@ Proof.
     rewrite (hgets_keys _ _ _ Ho). exact Hk.
 Qed.
 
-(* C09_quotas_total_population_size with the hypothesis on the fitness values *)
+(* With at most 2^31 FINITE fitness values >= 0 and a non-zero average every organism's
+   ExpectedOffspring = fitness / average is a finite float in [0, 2n] (FloatMono.quotients_bounded,
+   through Flocq), in particular in [0, 2^52): int(math.Floor(.)) converts it faithfully.  Without
+   finiteness the quotient can be NaN (+Inf / +Inf), whose conversion is math.MinInt64 on amd64. *)
+Theorem purge_zero_exp_conv p p' orgs :
+  purge_zero_offspring p = Ok p' ->
+  hgets (p_heap p) (p_orgs p) = Ok orgs ->
+  1 <= zlen orgs <= 2 ^ 31 ->
+  (forall y, In y orgs -> PrimFloat.leb 0%float (o_fit y) = true /\ PrimFloat.ltb (o_fit y) infinity = true) ->
+  (PrimFloat.eqb (pz_avg orgs) 0%float = true ->
+   forall k x, In k (p_orgs p) -> hget (p_heap p) k = Ok x ->
+               PrimFloat.leb 0%float (o_exp x) = true /\ PrimFloat.ltb (o_exp x) 0x1p+52%float = true) ->
+  forall k x, In k (p_orgs p) -> hget (p_heap p') k = Ok x ->
+              PrimFloat.leb 0%float (o_exp x) = true /\ PrimFloat.ltb (o_exp x) 0x1p+52%float = true.
+Proof.
+  intros Hp Ho Hn Hfit Hzero k x Hk Hx.
+  apply purge_zero_unfold in Hp. destruct Hp as [orgs' [sps' [T' [P1 [P2 _]]]]].
+  rewrite Ho in P1. injection P1 as <-. rewrite P2 in Hx. unfold pz_heap in Hx.
+  destruct (PrimFloat.eqb (pz_avg orgs) 0%float) eqn:Eavg; [exact (Hzero eq_refl k x Hk Hx)|].
+  apply Q.hget_hsets_cases in Hx. destruct Hx as [Hi|[N _]].
+  - apply in_map_iff in Hi. destruct Hi as (x0 & <- & Hx0). cbn [o_exp o_with_exp].
+    destruct (FloatMono.quotients_bounded o_fit orgs Hn Hfit Eavg x0 Hx0) as [[Fq Q0] Q1].
+    change (PrimFloat.div (fold_left (fun a x => PrimFloat.add a (o_fit x)) orgs 0%float) (f_of_Z (Z.of_nat (length orgs))))
+      with (pz_avg orgs) in *.
+    split.
+    + apply ActFloatBase.leb_of_R; [exact EpochTotalFloat.fin_zero|exact Fq|]. rewrite ActFloatBase.FR_zero. exact Q0.
+    + change 0x1p+52%float with two52.
+      apply EpochTotalFloat.ltb_of_R; [exact Fq|exact EpochTotalFloat.fin_two52|]. rewrite EpochTotalFloat.FR_two52.
+      apply Rle_lt_trans with (1 := Q1). apply Rle_lt_trans with (IZR (2 ^ 32)).
+      * rewrite <- (mult_IZR 2). apply IZR_le. unfold zlen in Hn. lia.
+      * change (2 ^ 32) with (Zpower Zaux.radix2 32). rewrite Raux.IZR_Zpower by lia. apply Raux.bpow_lt. lia.
+  - exfalso. apply N. rewrite map_map.
+    replace (map (fun x0 => o_key (o_with_exp x0 (PrimFloat.div (o_fit x0) (pz_avg orgs)))) orgs) with (map o_key orgs)
+      by (apply map_ext; reflexivity).
+    rewrite (hgets_keys _ _ _ Ho). exact Hk.
+Qed.
+
+(* C09_quotas_total_population_size with the hypothesis on the fitness values: finite and >= 0 *)
 Theorem total_robust_fitness : forall p p' orgs sps T,
   purge_zero_offspring p = Ok p' ->
   hgets (p_heap p) (p_orgs p) = Ok orgs ->
   count_all (p_heap p') (p_species p) 0%float 0 = Ok (sps, T) ->
   p_species p <> [] -> NoDup (map sp_id (p_species p)) ->
   (forall s k, In s (p_species p) -> In k (sp_orgs s) -> In k (p_orgs p)) ->
-  (forall y, In y orgs -> PrimFloat.ltb (o_fit y) 0%float = false) ->
+  1 <= zlen orgs <= 2 ^ 31 ->
+  (forall y, In y orgs -> PrimFloat.leb 0%float (o_fit y) = true /\ PrimFloat.ltb (o_fit y) infinity = true) ->
   (PrimFloat.eqb (pz_avg orgs) 0%float = true ->
-   forall k x, In k (p_orgs p) -> hget (p_heap p) k = Ok x -> PrimFloat.ltb (o_exp x) 0%float = false) ->
+   forall k x, In k (p_orgs p) -> hget (p_heap p) k = Ok x ->
+               PrimFloat.leb 0%float (o_exp x) = true /\ PrimFloat.ltb (o_exp x) 0x1p+52%float = true) ->
   (T <= zlen orgs -> sp_sum (p_species p') = zlen orgs) /\
   (zlen orgs < T -> sp_sum (p_species p') = T) /\
   (forall s, In s (p_species p') -> 0 < sp_exp s) /\
   (forall s, In s (p_detached p') -> In s (p_detached p) \/ sp_exp s <= 0).
 Proof.
-  intros p p' orgs sps T Hp Ho Hc Hne Hnd Hmem Hfit Hzero.
+  intros p p' orgs sps T Hp Ho Hc Hne Hnd Hmem Hn Hfit Hzero.
   apply (total_robust_float p p' orgs sps T Hp Ho Hc Hne Hnd).
-  intros s k x Hs Hk Hx. exact (purge_zero_exp_nonneg p p' orgs Hp Ho Hfit Hzero k x (Hmem s k Hs Hk) Hx).
+  intros s k x Hs Hk Hx. exact (purge_zero_exp_conv p p' orgs Hp Ho Hn Hfit Hzero k x (Hmem s k Hs Hk) Hx).
 Qed.
 
 (* With FINITE fitness values >= 0 and a non-zero average, the average and every organism's
